@@ -1,19 +1,16 @@
 /-
 C03 — a feasible job always completes: no deadlock, livelock or scheduler crash.
 
-Proved here (for ANY order and batching of events, every job, cluster and admissible choice):
+Proved here, ALL for ANY order and batching of events, every job, cluster and admissible choice:
 the controller never raises from its own bookkeeping (all six `raise`/KeyError sites of the
-modelled functions are unreachable), `shutdown` is issued exactly once and last, and when the
-loop exits nothing is computable, ongoing or unfetched. The liveness clauses (progress, bounded
-rounds, all tasks completed at exit) hold only under FIFO delivery on the pinned tree
-(known finding C03-last-output-overtakes) and are checked by the watchdog oracle of the check.
+modelled functions are unreachable), `shutdown` is issued exactly once and last, when the
+loop exits nothing is computable, ongoing or unfetched; and the liveness clauses: every task completed at exit,
+progress, bounded rounds, no wait with nothing outstanding (on every feasible cluster).
 
-"FIFO" (`fifoStep`, Lemmas/SchedInvDefs.lean) is PER-PRODUCER order, what one worker's channel guarantees: of each
-task's pending output notices a received batch takes a prefix in their order; notices of different tasks, transfer
-notices and payloads may overtake each other and be batched in any way. The global discipline "a batch is a prefix of
-all pending events" is a special case (`fifoStep_of_prefix`), and so are the deliveries of FIFO executors whose task
-bodies publish their outputs one at a time (Model/CtrlN.lean): the X driver evaluates `fifoStep` on every batch of the
-harness' FIFO runs.
+Before the repair of controller/notify.py (completion inferred from the notice of the LAST output; fixed finding
+C03-last-output-overtakes) the liveness clauses held only under per-producer FIFO delivery. Now the completion of a
+task is detected when the notices of ALL its outputs have been processed (`State.published_outputs`, `Ctl.published`,
+Tier P `InvP`), no FIFO hypothesis is left anywhere, and the example at the end runs the former counterexample.
 -/
 import EkwVerif.Lemmas.SchedBound
 import EkwVerif.Lemmas.SchedIdle
@@ -90,46 +87,65 @@ theorem c03_sched_no_crash (f : Sem) (j : Job) (cl : Cluster) (cm : Comps) (wf :
   have h := invX_reachable f j cl cm wf wfc x hr
   exact ⟨h.hS.no_schErr, (c03_no_crash f j cl wf x.sys (sS1_reachableX_base f j cl cm x hr)).1⟩
 
-/-- **All tasks completed when the loop exits — under FIFO delivery** (each task's output notices reach the
-controller in production order). Under any-order delivery this is false on the pinned tree (known finding
-C03-last-output-overtakes), hence the `_partial` suffix. -/
-theorem c03_done_partial (f : Sem) (j : Job) (cl : Cluster) (cm : Comps) (wf : WF j cl) (x : SysX)
-    (hr : ReachableFifo f j cl cm x) (hfin : x.sys.phase = .finished) :
-    ∀ t, t < j.tasks.length → x.sys.ctl.doneC t = true ∧ x.sys.env.ran t = true ∧ x.sys.env.dispatchedE t = 1 := by
+/-- **All tasks completed when the loop exits — for ANY order and batching of events**: every task's completion has
+been notified, it ran, and it was dispatched exactly once. (Completion of a task is detected when the notices of ALL
+its outputs have been processed, `InvP.done_iff`; before the repair of notify.py this needed FIFO delivery.) -/
+theorem c03_done (f : Sem) (j : Job) (cl : Cluster) (wf : WF j cl) (s : Sys)
+    (hr : Reachable f j cl s) (hfin : s.phase = .finished) :
+    ∀ t, t < j.tasks.length → s.ctl.doneC t = true ∧ s.env.ran t = true ∧ s.env.dispatchedE t = 1 := by
   intro t ht
-  have hd := sF_done f j cl cm x hr wf hfin t ht
-  have hR := sF_reachable_base f j cl cm x hr
-  exact ⟨hd, aux_done_ran_once f j cl wf x.sys hR t hd⟩
+  have hd := sL_done f j cl wf s hr hfin t ht
+  exact ⟨hd, aux_done_ran_once f j cl wf s hr t hd⟩
 
-/-- **Progress — under FIFO delivery.** An iteration of the controller loop entered with something
+/-- the same for the extended system (controller + scheduler bookkeeping) -/
+theorem c03_done_x (f : Sem) (j : Job) (cl : Cluster) (cm : Comps) (wf : WF j cl) (x : SysX)
+    (hr : ReachableX f j cl cm x) (hfin : x.sys.phase = .finished) :
+    ∀ t, t < j.tasks.length → x.sys.ctl.doneC t = true ∧ x.sys.env.ran t = true ∧ x.sys.env.dispatchedE t = 1 :=
+  c03_done f j cl wf x.sys (sL_reachableX_base f j cl cm x hr) hfin
+
+/-- **Completion is detected exactly when the notices of all outputs have been processed**, in whatever order they
+arrived: a notice that overtakes the notices of earlier outputs of its task does not complete the task. -/
+theorem c03_done_iff_all_notices (f : Sem) (j : Job) (cl : Cluster) (wf : WF j cl) (s : Sys) (hr : Reachable f j cl s)
+    (t : Task) (ht : t < j.tasks.length) :
+    s.ctl.doneC t = true ↔ ∀ k, k < j.nOut t → s.ctl.published ⟨t, k⟩ = true :=
+  (invAll_reachable f j cl wf s hr).hP.done_iff t ht
+
+/-- **No output notice is lost or counted twice**: every output notice of a task that ran has been processed or is on
+its way, never both; and while any of them is on its way the task is still in flight. -/
+theorem c03_notices_accounted (f : Sem) (j : Job) (cl : Cluster) (wf : WF j cl) (s : Sys) (hr : Reachable f j cl s) :
+    (∀ t, s.env.ran t = true → ∀ k, k < j.nOut t →
+        s.ctl.published ⟨t, k⟩ = true ∨ ∃ w, Event.pubW w ⟨t, k⟩ ∈ s.allEv) ∧
+    (∀ w ds, Event.pubW w ds ∈ s.allEv → s.ctl.published ds = false ∧ s.inFlight w ds.task) := by
+  have h := invAll_reachable f j cl wf s hr
+  exact ⟨(sL_reachable f j cl wf s hr).notice, fun w ds he => ⟨h.hP.pub_once w ds he, h.h2.ev_flight w ds he⟩⟩
+
+/-- **Progress — for ANY order and batching of events.** An iteration of the controller loop entered with something
 computable and nothing ongoing (so: nothing to wait for) dispatches at least one task before
 `assign()` returns, on every feasible cluster, whatever the heuristics choose and whatever the
 executors do meanwhile: the controller never spins without issuing a command. (`ProgressStmt`,
-`Lemmas/SchedProgressDefs.lean`; FIFO is needed on the pinned tree: known finding.) -/
-theorem c03_progress_partial (f : Sem) (j : Job) (cl : Cluster) (cm : Comps) (wf : WF j cl) (wfc : WFC j cm)
-    (feas : Feasible j cl) (x x1 x2 : SysX) (hr : ReachableFifo f j cl cm x) (htop : x.sys.phase = .top)
+`Lemmas/SchedProgressDefs.lean`.) -/
+theorem c03_progress (f : Sem) (j : Job) (cl : Cluster) (cm : Comps) (wf : WF j cl) (wfc : WFC j cm)
+    (feas : Feasible j cl) (x x1 x2 : SysX) (hr : ReachableX f j cl cm x) (htop : x.sys.phase = .top)
     (hc : x.sys.ctl.hasComputable = true) (ho : x.sys.ctl.ongoing = [])
     (he : stepX f j cl cm x (.base .enter) = some x1) (hs : AssignStar f j cl cm x1 x2)
     (hp : x2.sys.phase = .planning) : x2.sys.todo ≠ [] :=
   sP_progress f j cl cm wf wfc feas x x1 x2 hr htop hc ho he hs hp
 
-/-- **Bounded number of scheduling rounds — under FIFO delivery.** On every feasible cluster, whatever
+/-- **Bounded number of scheduling rounds — for ANY order and batching of events.** On every feasible cluster, whatever
 the heuristics choose and however executor steps interleave, the `while` loop of `impl.run` makes at
 most `roundBound j = Σ_t (1 + #inputs t + #outputs t) + #requested + 1` iterations (a function of the job
 only). Proof: a potential that never increases and drops at every dispatch and every non-empty
 `recv_events`, plus the progress theorem (an iteration that neither waited nor dispatched is impossible). -/
-theorem c03_bounded_partial (f : Sem) (j : Job) (cl : Cluster) (cm : Comps) (wf : WF j cl) (wfc : WFC j cm)
-    (feas : Feasible j cl) (x : SysX) (hr : ReachableFifo f j cl cm x) : x.sys.rounds ≤ roundBound j :=
+theorem c03_bounded (f : Sem) (j : Job) (cl : Cluster) (cm : Comps) (wf : WF j cl) (wfc : WFC j cm)
+    (feas : Feasible j cl) (x : SysX) (hr : ReachableX f j cl cm x) : x.sys.rounds ≤ roundBound j :=
   sB_rounds_bounded f j cl cm wf wfc feas x hr
 
-/-- **No idle wait — under FIFO delivery.** Whenever the controller blocks in `recv_events` (phase `waiting`), an event is
-already on its way or an executor can move (a queued task whose inputs are on its host, or a commanded transfer/fetch);
-every executor step strictly decreases |queued| + |outstanding|, so an event eventually arrives: the controller never waits
-with nothing outstanding. The disjunct "a task is ongoing" (`c03_ongoing_is_live`) and the fetch pipeline of an announced
-requested output hold for ANY event order; FIFO is needed only when nothing is ongoing and a requested output has not even
-been announced (known finding C03-last-output-overtakes). -/
-theorem c03_no_idle_wait_partial (f : Sem) (j : Job) (cl : Cluster) (cm : Comps) (wf : WF j cl) (wfc : WFC j cm)
-    (feas : Feasible j cl) (x : SysX) (hr : ReachableFifo f j cl cm x) (hw : x.sys.phase = .waiting) :
+/-- **No idle wait — for ANY order and batching of events.** Whenever the controller blocks in `recv_events` (phase
+`waiting`), an event is already on its way or an executor can move (a queued task whose inputs are on its host, or a
+commanded transfer/fetch); every executor step strictly decreases |queued| + |outstanding|, so an event eventually
+arrives: the controller never waits with nothing outstanding. -/
+theorem c03_no_idle_wait (f : Sem) (j : Job) (cl : Cluster) (cm : Comps) (wf : WF j cl) (wfc : WFC j cm)
+    (feas : Feasible j cl) (x : SysX) (hr : ReachableX f j cl cm x) (hw : x.sys.phase = .waiting) :
     x.sys.env.pending ≠ [] ∨ ∃ es e', envStep f j x.sys.env es = some e' :=
   sI_no_idle_wait f j cl cm wf wfc feas x hr hw
 
@@ -141,9 +157,64 @@ theorem c03_ongoing_is_live (f : Sem) (j : Job) (cl : Cluster) (wf : WF j cl) (s
     s.env.pending ≠ [] ∨ ∃ es e', envStep f j s.env es = some e' :=
   sI_ongoing_live f j cl wf s hr hib ho
 
-/-- the FIFO hypothesis is satisfiable by more than the trivial discipline: any batch that is a prefix of all pending
-events satisfies it, and so does a batch that lets another task's notice overtake (non-vacuity of the generalisation) -/
-example (x : SysX) (evs : List Event) (h : evs = x.sys.env.pending.take evs.length) : fifoStep x (.base (.recv evs)) :=
-  fifoStep_of_prefix x evs h
+/-! ### non-vacuity: the LAST output's notice overtakes an earlier one
+
+One worker, `t0` with three outputs, `t1 ← t0.1`, requested output `t1.0`. After the body of `t0` ran, the notice of its
+LAST output (`t0.2`) is delivered first, in a batch of its own. The controller records it and does NOT mark `t0` complete
+(before the repair it did: it then dropped `t0` from `ongoing`, and a later iteration could exit or spin with `t1` never
+run); the task stays in flight and its worker busy. After the notices of `t0.0` and `t0.1` have arrived — again out of
+order — the task is complete, `t1` is computable and the worker idle. -/
+section
+def exJobO : Job := { tasks := [{ nOut := 3, gpu := false, inputs := [] }, { nOut := 1, gpu := false, inputs := [⟨0, 1⟩] }], ext := [⟨1, 0⟩] }
+def exClO : Cluster := { workers := [(⟨0, 0⟩, false)] }
+def exSemO : Sem := fun t k args => s!"t{t}.{k}({args})"
+def exStepsO1 : List Step :=
+  [.enter, .assign ⟨⟨0, 0⟩, 0, []⟩, .endAssign, .plan1, .endPlan, .endFlushF, .endFlush, .env (.run ⟨0, 0⟩ 0),
+   .recv [.pubW ⟨0, 0⟩ ⟨0, 2⟩], .notify1, .endNotify]
+def exStepsO2 : List Step :=
+  exStepsO1 ++ [.enter, .endAssign, .endPlan, .endFlushF, .endFlush, .recv [.pubW ⟨0, 0⟩ ⟨0, 1⟩, .pubW ⟨0, 0⟩ ⟨0, 0⟩], .notify1]
+def exStepsO3 : List Step := exStepsO2 ++ [.notify1, .endNotify]
+
+/-- after the overtaking last notice alone: recorded, announced, task NOT done, still ongoing, worker not idle, nothing
+computable, and the notices of the two earlier outputs still on their way -/
+example : ((runSteps exSemO exJobO exClO (Sys.init exJobO exClO) exStepsO1).map (fun s =>
+    (s.ctl.published ⟨0, 2⟩, s.ctl.announced ⟨0, 2⟩, s.ctl.doneC 0, s.ctl.ongoing))) =
+    some (true, true, false, [(⟨0, 0⟩, 0)]) := by
+  decide
+example : ((runSteps exSemO exJobO exClO (Sys.init exJobO exClO) exStepsO1).map (fun s =>
+    (s.ctl.idle, s.ctl.computable, s.ctl.remaining, s.env.pending))) =
+    some ([], [], 2, [.pubW ⟨0, 0⟩ ⟨0, 0⟩, .pubW ⟨0, 0⟩ ⟨0, 1⟩]) := by
+  decide
+
+/-- two of three notices processed (`t0.2`, then `t0.1`): the consumer `t1` is already computable, `t0` still not done -/
+example : ((runSteps exSemO exJobO exClO (Sys.init exJobO exClO) exStepsO2).map (fun s =>
+    (s.ctl.doneC 0, s.ctl.ongoing, s.ctl.computable, s.inbox))) =
+    some (false, [(⟨0, 0⟩, 0)], [1], [.pubW ⟨0, 0⟩ ⟨0, 0⟩]) := by
+  decide
+
+/-- all three processed: done, worker idle again, one task remaining -/
+example : ((runSteps exSemO exJobO exClO (Sys.init exJobO exClO) exStepsO3).map (fun s =>
+    (s.ctl.doneC 0, s.ctl.ongoing, s.ctl.idle, s.ctl.computable))) =
+    some (true, [], [⟨0, 0⟩], [1]) := by
+  decide
+example : ((runSteps exSemO exJobO exClO (Sys.init exJobO exClO) exStepsO3).map (fun s => (s.ctl.remaining, s.err))) =
+    some (1, none) := by
+  decide
+
+/-- the first batch is not a per-producer FIFO delivery: the liveness theorems above cover it nevertheless -/
+example : Reachable exSemO exJobO exClO ((runSteps exSemO exJobO exClO (Sys.init exJobO exClO) exStepsO1).get (by decide)) := by
+  have key : ∀ (l : List Step) (s s' : Sys), Reachable exSemO exJobO exClO s →
+      runSteps exSemO exJobO exClO s l = some s' → Reachable exSemO exJobO exClO s' := by
+    intro l
+    induction l with
+    | nil => intro s s' hr h; simp only [runSteps, Option.some.injEq] at h; subst h; exact hr
+    | cons st l ih =>
+      intro s s' hr h
+      simp only [runSteps] at h
+      cases hst : step exSemO exJobO exClO s st with
+      | none => simp [hst] at h
+      | some s1 => simp only [hst] at h; exact ih s1 s' (Reachable.step s s1 st hr hst) h
+  exact key exStepsO1 _ _ Reachable.init (Option.eq_some_of_isSome _)
+end
 
 end EkwVerif.Ctrl
